@@ -39,20 +39,19 @@ const bindShards = 16
 // ---------------------------------------------------------------- data
 
 type bindRow struct {
-	ID           int
-	Key, Name    string
-	Form         string // sel ident addrsel typesel typeident lit funclit other
-	Q, Ident     string
-	Tok, Lit     string
-	Text         string
-	File         string
-	Line         int
-	viaMapTypes  bool
-	groupIdx     int
-	fileIdx      int
-	truth        *truthObj
-	truthPkg     *truthPkg
-	compiledHint bool
+	ID          int
+	Key, Name   string
+	Form        string // sel ident addrsel typesel typeident lit funclit other
+	Q, Ident    string
+	Tok, Lit    string
+	Text        string
+	File        string
+	Line        int
+	viaMapTypes bool
+	groupIdx    int
+	fileIdx     int
+	truth       *truthObj
+	truthPkg    *truthPkg
 }
 
 type bindParam struct{ Name, Type string }
@@ -343,7 +342,9 @@ func (l *bindLoader) truth(path string, api map[string]map[string]*apiEntry, pla
 		}
 		if e := api[path][name]; e != nil {
 			t.Since = e.sinceFor(plat)
-			t.API = e.rec(plat)
+			if apiCovered[plat] {
+				t.API = e.rec(plat) // the api files say nothing about the platforms they do not cover
+			}
 		}
 		tp.Objs = append(tp.Objs, t)
 		tp.byName[name] = t
@@ -399,9 +400,6 @@ var apiMethodRe = regexp.MustCompile(`^ interface, ([A-Za-z_][A-Za-z0-9_]*)\(`)
 
 func (e *apiEntry) rec(plat string) *apiRec {
 	r := &apiRec{Kind: e.kind, Since: e.since, valRel: -1}
-	if !apiCovered[plat] {
-		return r // a value stated without platform holds on the platforms the api files cover only
-	}
 	for _, v := range e.values {
 		if v.plat != "" && v.plat != plat {
 			continue
